@@ -45,3 +45,41 @@ Example C12_a64_flagged_run_reported_nonvacuous :
   existsb (fun row => test (ai_flags row) (at_consecutive a64_tabs)) (at_inst a64_tabs) = true /\
   existsb (fun c => Nat.ltb 2 (length (ac_ops c))) a64_list_cases = true.
 Proof. split; vm_compute; reflexivity. Qed.
+
+(* round 6: C12_a64_by_element_write_mask is not vacuous - a database case of the snapshot has a WRITTEN by-element register operand at
+   position 0 (ins v.s[1], w / ld1 {v.s}[1], [x] ...), handled by the non-list path, element size 1/2/4/8; and for such a case the model's
+   write mask is exactly the element (e.g. bytes 4..7 for .s[1]) *)
+From Verif Require Import RwInfo.CompleteProofs.
+Definition by_element_written_case (c : a64_case) : bool :=
+  match ac_ops c with
+  | AReg (Some (et, idx)) :: _ =>
+      let row := nthN (at_inst a64_tabs) (N.land (ac_id c) (at_real_id_mask a64_tabs)) {| ai_rw := 0; ai_flags := 0 |} in
+      negb (test (ai_flags row) (at_consecutive a64_tabs) && Nat.ltb 2 (length (ac_ops c))) &&
+      test (clear (nth 0 (nthN (at_rwx a64_tabs) (ai_rw row) []) 0) fZExt) fW &&
+      existsb (N.eqb (nthN (at_elem_size a64_tabs) et 0)) [1; 2; 4; 8] && (idx <? 64) &&
+      match a64_query_rw_info a64_tabs (ac_id c) (ac_ops c) with
+      | Some out => o_w (nth 0 (i_ops out) op_zero) =? a64_elem_access (nthN (at_elem_size a64_tabs) et 0) idx
+      | None => false end
+  | _ => false end.
+Example C12_a64_by_element_write_mask_nonvacuous : exists c, In c a64_access_cases /\ by_element_written_case c = true.
+Proof.
+  destruct (find by_element_written_case a64_access_cases) as [c|] eqn:E; [|vm_compute in E; discriminate].
+  apply find_some in E. exists c. exact E.
+Qed.
+Print Assumptions C12_a64_by_element_write_mask_nonvacuous.
+
+(* C12_a64_non_register_operands_silent / C12_a64_register_access_is_the_tables: database cases with an immediate operand next to register operands,
+   handled by the non-list, non-tbl path, exist - and the immediate's record is all zero there *)
+Definition imm_operand_case (c : a64_case) : bool :=
+  let real := N.land (ac_id c) (at_real_id_mask a64_tabs) in
+  let row := nthN (at_inst a64_tabs) real {| ai_rw := 0; ai_flags := 0 |} in
+  negb (test (ai_flags row) (at_consecutive a64_tabs) && Nat.ltb 2 (length (ac_ops c))) &&
+  negb (existsb (N.eqb real) (at_tbl_ids a64_tabs)) &&
+  existsb (fun o => negb (a_is_reg_or_mem o)) (ac_ops c) && existsb a_is_reg_or_mem (ac_ops c) &&
+  match a64_query_rw_info a64_tabs (ac_id c) (ac_ops c) with Some _ => true | None => false end.
+Example C12_a64_silent_operands_nonvacuous : exists c, In c a64_access_cases /\ imm_operand_case c = true.
+Proof.
+  destruct (find imm_operand_case a64_access_cases) as [c|] eqn:E; [|vm_compute in E; discriminate].
+  apply find_some in E. exists c. exact E.
+Qed.
+Print Assumptions C12_a64_silent_operands_nonvacuous.
